@@ -6,6 +6,8 @@ use crate::driver::DriverError;
 use crate::error::StreamWriteError;
 use crate::VarInt;
 use std::future::pending;
+use std::future::Future;
+use std::pin::Pin;
 use tokio::sync::watch;
 use wtransport_proto::bytes;
 use wtransport_proto::error::ErrorCode;
@@ -75,8 +77,18 @@ impl LocalSettingsStream {
     }
 }
 
+type ReadFrame = Pin<
+    Box<dyn Future<Output = (StreamUniRemoteH3, Result<Frame<'static>, ProtoReadError>)> + Send>,
+>;
+
 pub struct RemoteSettingsStream {
     stream: Option<StreamUniRemoteH3>,
+
+    // The frame read in progress (it owns the stream meanwhile). It is kept here and not in the
+    // future of `run`, because the driver drops that future whenever another branch of its
+    // select loop completes: the bytes already consumed of an incomplete frame must survive.
+    reading: Option<ReadFrame>,
+
     settings: watch::Sender<Option<Settings>>,
 }
 
@@ -84,12 +96,13 @@ impl RemoteSettingsStream {
     pub fn empty() -> Self {
         Self {
             stream: None,
+            reading: None,
             settings: watch::channel(None).0,
         }
     }
 
     pub fn is_empty(&self) -> bool {
-        self.stream.is_none()
+        self.stream.is_none() && self.reading.is_none()
     }
 
     pub fn set_stream(&mut self, stream: StreamUniRemoteH3) {
@@ -125,12 +138,28 @@ impl RemoteSettingsStream {
         }
     }
 
-    async fn read_frame<'a>(&mut self) -> Result<Frame<'a>, DriverError> {
-        let Some(stream) = self.stream.as_mut() else {
-            return pending().await;
-        };
+    async fn read_frame(&mut self) -> Result<Frame<'static>, DriverError> {
+        if self.reading.is_none() {
+            let Some(mut stream) = self.stream.take() else {
+                return pending().await;
+            };
 
-        match stream.read_frame().await {
+            self.reading = Some(Box::pin(async move {
+                let frame = stream.read_frame().await;
+                (stream, frame)
+            }));
+        }
+
+        let (stream, frame) = self
+            .reading
+            .as_mut()
+            .expect("read in progress just set")
+            .await;
+
+        self.reading = None;
+        self.stream = Some(stream);
+
+        match frame {
             Ok(frame) => Ok(frame),
             Err(ProtoReadError::H3(error_code)) => Err(DriverError::Proto(error_code)),
             Err(ProtoReadError::IO(io_error)) => match io_error {
